@@ -192,6 +192,11 @@ type Facts struct {
 }
 
 type FactOpts struct {
+	// Assume: facts taken to hold at function entry (they die like any other fact
+	// when something they read is written). Edges whose condition contradicts the
+	// current facts are pruned as infeasible, so a rule can be decided "on the
+	// paths where X holds".
+	Assume []*Term
 	// KeepAcross: if it returns true for a node, the node kills nothing (used by
 	// rules whose property is "tested once per critical section").
 	KeepAcross func(n ast.Node) bool
@@ -330,9 +335,67 @@ func (fa *Facts) transfer(fs *FactSet, n ast.Node) {
 	if _, ok := n.(*ast.DeferStmt); ok {
 		return
 	}
+	// acquiring or releasing a mutex: other goroutines may have changed any shared
+	// state in between, so every fact that reads a field or a global dies.
+	if p.hasLockOp(n) {
+		for k, a := range fs.Atoms {
+			rs := p.termReads(a)
+			if len(rs.fields) > 0 || len(rs.globs) > 0 {
+				delete(fs.Atoms, k)
+			}
+		}
+		for v, d := range fs.Defs {
+			rs := p.termReads(d)
+			if len(rs.fields) > 0 || len(rs.globs) > 0 {
+				delete(fs.Defs, v)
+			}
+		}
+	}
+	// x = min(.., x, ..) keeps the upper bounds already known for x (dually max)
+	var selfVar *types.Var
+	var selfOp string
+	var saved []*Term
+	if as, ok := n.(*ast.AssignStmt); ok && len(as.Lhs) == 1 && len(as.Rhs) == 1 && (as.Tok == token.ASSIGN || as.Tok == token.DEFINE) {
+		if id, ok := ast.Unparen(as.Lhs[0]).(*ast.Ident); ok {
+			o := p.Info.Uses[id]
+			if o == nil {
+				o = p.Info.Defs[id]
+			}
+			if v, ok := o.(*types.Var); ok && !v.IsField() {
+				rt := p.Term(as.Rhs[0])
+				if rt.Op == "min" || rt.Op == "max" {
+					for _, a := range rt.Args {
+						if a.Op == "var" && a.Obj == v {
+							selfVar, selfOp = v, rt.Op
+						}
+					}
+					if selfVar != nil {
+						for _, a := range fs.Atoms {
+							if a.Op != "<=" {
+								continue
+							}
+							bound, other := a.Args[0], a.Args[1]
+							if selfOp == "max" {
+								bound, other = a.Args[1], a.Args[0]
+							}
+							if bound.Op == "var" && bound.Obj == v && !other.Contains(bound) {
+								saved = append(saved, a)
+							}
+						}
+					}
+				}
+			}
+		}
+	}
 	for k, a := range fs.Atoms {
 		if p.killedBy(a, te, own) {
 			delete(fs.Atoms, k)
+		}
+	}
+	for _, a := range saved {
+		// the bound itself must not have been written by this statement
+		if !p.killedBy(a.Args[1], te, &Effects{LocalW: map[*types.Var]token.Pos{}, ParamEW: map[*types.Var]token.Pos{}}) || selfOp == "max" {
+			fs.Atoms[a.Key()] = a
 		}
 	}
 	for v, d := range fs.Defs {
@@ -369,6 +432,19 @@ func (fa *Facts) transfer(fs *FactSet, n ast.Node) {
 				self = true
 			}
 		})
+		// bounds implied by min/max definitions
+		if t.Op == "min" || t.Op == "max" {
+			for _, a := range t.Args {
+				if a.Op == "var" && a.Obj == v {
+					continue
+				}
+				if t.Op == "min" {
+					fs.add(le(tVar(v), a))
+				} else {
+					fs.add(le(a, tVar(v)))
+				}
+			}
+		}
 		if self {
 			return
 		}
@@ -500,7 +576,14 @@ func (p *Prog) Facts(fi *FuncInfo, opt FactOpts) *Facts {
 	c := p.CFG(fi)
 	fa := &Facts{p: p, c: c, in: map[*cfg.Block]*FactSet{}, opt: opt}
 	out := map[*cfg.Block]*FactSet{}
-	fa.in[c.Entry()] = newFactSet()
+	entryFacts := func() *FactSet {
+		fs := newFactSet()
+		for _, a := range opt.Assume {
+			fs.add(a)
+		}
+		return fs
+	}
+	fa.in[c.Entry()] = entryFacts()
 	blocks := append([]*cfg.Block{}, c.live...)
 	sort.Slice(blocks, func(i, j int) bool { return c.order[blocks[i]] < c.order[blocks[j]] })
 	edgeFacts := func(pr, b *cfg.Block) *FactSet {
@@ -516,6 +599,9 @@ func (p *Prog) Facts(fi *FuncInfo, opt FactOpts) *Facts {
 			} else {
 				t = Negate(ct)
 			}
+			if len(opt.Assume) > 0 && p.pureTerm(t) && fs.Holds(Negate(p.ExpandHelpers(t))) {
+				return nil // infeasible under the assumptions
+			}
 			for _, cj := range Conjuncts(t) {
 				if p.pureTerm(cj) {
 					fs.add(p.ExpandHelpers(cj))
@@ -529,7 +615,7 @@ func (p *Prog) Facts(fi *FuncInfo, opt FactOpts) *Facts {
 		for _, b := range blocks {
 			var in *FactSet
 			if b == c.Entry() {
-				in = newFactSet()
+				in = entryFacts()
 			} else {
 				// multi-value switch clause: all predecessors are tests of the same clause
 				var orTerms []*Term
@@ -636,4 +722,24 @@ func (fa *Facts) AtNode(n ast.Node) *FactSet {
 		}
 	}
 	return fs
+}
+
+// hasLockOp: the node (shallowly) calls Lock/Unlock/RLock/RUnlock of a sync mutex.
+func (p *Prog) hasLockOp(n ast.Node) bool {
+	found := false
+	inspectShallow(n, func(x ast.Node) bool {
+		if call, ok := x.(*ast.CallExpr); ok {
+			if f := p.Callee(call); f != nil && f.Pkg() != nil && f.Pkg().Path() == "sync" {
+				switch f.Name() {
+				case "Lock", "Unlock", "RLock", "RUnlock":
+					r := recvTypeName(f)
+					if r == "Mutex" || r == "RWMutex" {
+						found = true
+					}
+				}
+			}
+		}
+		return true
+	})
+	return found
 }
